@@ -851,6 +851,26 @@ impl Runner {
                     std::fs::write(st.join("state.json"), b).unwrap();
                 }
             }
+            Damage::SjFuture(k) => {
+                if let Some(Some(b)) = self.sj_hist.get(*k) {
+                    // every "timestamp": N becomes a time far in the future (alternately the year 2100 and u64::MAX)
+                    let text = String::from_utf8_lossy(b).to_string();
+                    let mut out = String::new();
+                    let mut rest = text.as_str();
+                    let mut i = 0usize;
+                    while let Some(p) = rest.find("\"timestamp\":") {
+                        let (head, tail) = rest.split_at(p + "\"timestamp\":".len());
+                        out.push_str(head);
+                        let digits_end = tail.find(|c: char| !(c.is_ascii_digit() || c == ' ')).unwrap_or(tail.len());
+                        out.push_str(if (i + k) % 2 == 0 { " 4102444800" } else { " 18446744073709551615" });
+                        rest = &tail[digits_end..];
+                        i += 1;
+                    }
+                    out.push_str(rest);
+                    std::fs::create_dir_all(&st).unwrap();
+                    std::fs::write(st.join("state.json"), out).unwrap();
+                }
+            }
             Damage::Nop => {}
         }
     }
